@@ -59,7 +59,7 @@ func (e *Engine) buildVCx(key string, con *Contract, excl map[string]bool) (res 
 	extraDecls, extraSeen = nil, map[string]bool{}
 	defer func() { c.Extra = append([]string{}, extraDecls...) }()
 	x := &Exec{E: e, C: c, Entry: State{}, Top: fn, TopCon: con, Assumed: map[string]bool{}, Inlined: map[string]bool{},
-		UsedCon: map[string]bool{}, autoExcl: excl, Active: e.Active, nonnil: map[string]bool{}, knownLen: map[string]int{}, unfolded: map[string]bool{}, goalSeq: map[string]int{}}
+		UsedCon: map[string]bool{}, autoExcl: excl, Active: e.Active, nonnil: map[string]bool{}, knownLen: map[string]int{}, Locals: map[string]string{}, refEpoch: map[string]string{}, unfolded: map[string]bool{}, goalSeq: map[string]int{}}
 	res.Ctx = c
 	x.safetyTags = []string{"C08"}
 	if con != nil && len(con.SafetyTags) > 0 {
@@ -167,7 +167,7 @@ func (x *Exec) frameObligations(key string, con *Contract, env *SpecEnv, entry, 
 	sort.Strings(names)
 	pre := env.withState(env.Old)
 	for _, name := range names {
-		if name == "alloc" || whole[name] {
+		if name == "alloc" || whole[name] || strings.HasPrefix(name, "@") || strings.HasPrefix(name, "_L") {
 			continue
 		}
 		skip := false
